@@ -124,6 +124,37 @@ def gen_cases(run, n, prefix="c"):
     return out
 
 
+def shared_query_file_cases(run, n):
+    """pairs of cases that share ONE query file and differ in the schema file: the second schema is the first with a new field in
+    front of every object's and interface's fields (all field positions shift) and a new type in front of the others. Both
+    are generated in one driver process, like two derives of one crate; each must accept its schema's conforming payloads"""
+    import copy
+    from ..model import Schema, T, NN
+    rng = run.sub_rng("shared-query-file")
+    out = []
+    for i in range(n):
+        schema = gen_schema(rng, narrowing=0.0)
+        doc, feats = gen_document(schema, rng)
+        s2 = Schema(copy.deepcopy(schema.d))
+        for tn in list(s2.order):
+            t = s2.types[tn]
+            if t["kind"] in ("object", "interface") and tn not in s2.roots.values():
+                t["fields"].insert(0, {"name": "zzInsertedFirst", "type": NN(T("Int")) if i % 2 else T("String"), "args": [], "deprecated": None})
+        s2.add("AaaInserted", {"kind": "object", "implements": [], "fields": [{"name": "x", "type": T("Int"), "args": [], "deprecated": None}]})
+        s2.order.remove("AaaInserted")
+        s2.order.insert(0, "AaaInserted")
+        opts = {"other_variant": i % 3 == 0}
+        a = C.make_case("sq%da" % i, schema, doc, rng, options=opts, fmt="sdl", features=list(feats) + ["shared-query-file"])
+        b = C.make_case("sq%db" % i, s2, doc, rng, options=opts, fmt="sdl" if i % 2 else "json", features=list(feats) + ["shared-query-file"])
+        b["query_file_from"] = a["id"]
+        b["doc_text"] = a["doc_text"]
+        for c in (a, b):
+            c["vectors"], c["payload_stats"] = C.resp_vectors(c, rng, n_payloads=6, n_corrupt_bases=0)
+            out.append(c)
+        run.count("shared-query-file-pairs")
+    return out
+
+
 def execute(run, cases, tag="b0"):
     fac = Factory("%s-%s-%d" % (run.prop, tag, run.seed))
     gen, verdict, obs = fac.run(cases)
@@ -208,6 +239,8 @@ def main(run):
         execute(run, cs, tag="b%d" % bi)
         done += n
         bi += 1
+    # a small batch of its own (one driver process): pairs of cases over one query file and two schema files
+    execute(run, shared_query_file_cases(run, run.size(8, 24)), tag="sq")
     return run.finish(floor=FLOOR if run.tier == "quick" else {k: v * 10 for k, v in FLOOR.items()})
 
 
